@@ -280,7 +280,7 @@ def ob_api(ob):
     kind = ob.params['kind']
     small = ob.params.get('small')
     nums_tab = ((2, 9, 36) if kind == 'sec' else (1, 9, 100, 999)) if small else (NUMS_SEC if kind == 'sec' else NUMS_LOT)
-    words = ((SEC_WORDS + ['§§ ']) if kind == 'sec' else ['Lot ', 'Lots ', 'L', 'Lt. '])
+    words = (SEC_WORDS if kind == 'sec' else ['Lot ', 'Lots ', 'L', 'Lt. '])
     if small:
         words = words[1:4] + words[-1:]
     reps = [''] + (SEC_REPEAT[:2] if kind == 'sec' else LOT_REPEAT[:2])
